@@ -93,6 +93,18 @@ class SerBoom(Exception):
     pass
 
 
+def _odd_exception_class(kind):
+    """Application exception classes whose metadata is unusual but legal."""
+    if kind == 1:
+        return type("Dynamic", (AppError,), {"__module__": None})  # e.g. classes built by type() in exec'd code
+    if kind == 2:
+        cls = type("Q", (AppError,), {})
+        cls.__qualname__ = "Outer.<locals>.Q"
+        cls.__module__ = ""
+        return cls
+    return AppError
+
+
 class Unhashable(Exception):
     """Value-comparable exception: defining __eq__ removes __hash__."""
 
@@ -205,8 +217,10 @@ def body_E1(ctx):
         except Exception as e:
             ctx.fail("leaving a with-block normally raised %r (value %s, faults %r)" % (e, vname, faults.injected))
 
+    ErrCls = _odd_exception_class(int(sh.get("errcls", 0)))
+
     def k_with_raise(inner):
-        e = AppError(V)
+        e = ErrCls(V)
         a = guard("start_action", lambda: start_action(action_type="t:wr", x=V))
         try:
             with a:
@@ -234,11 +248,11 @@ def body_E1(ctx):
         a = guard("start_task", lambda: start_task(action_type="t:task", x=V))
         r = guard("Action.run", lambda: a.run(lambda: V))
         ctx.check(r is V, "Action.run returned %r", r)
-        guard("finish(exception)", lambda: a.finish(AppError(V)))
+        guard("finish(exception)", lambda: a.finish(ErrCls(V)))
         guard("finish again", a.finish)
 
     def k_traceback(inner):
-        e = AppError(V)
+        e = ErrCls(V)
         try:
             raise e
         except AppError:
@@ -351,15 +365,15 @@ def L1(i: int, s: str) -> bool:
 def _e1_shards(tier):
     out = []
     if tier == "quick":
-        for ff, fe in ((1, 0), (0, 0), (1, 1), (1, 2), (0, 3)):
-            base = {"calls": 1, "F": 2, "flaky_first": ff, "fault_exc": fe}
+        for ff, fe, ec in ((1, 0, 0), (0, 0, 1), (1, 1, 2), (1, 2, 1), (0, 3, 0)):
+            base = {"calls": 1, "F": 2, "flaky_first": ff, "fault_exc": fe, "errcls": ec}
             out += [dict(base, prefix=p) for p in enumerate_prefixes(body_E1, "X", {}, base, 1)]
         return out
     for ff, fe in ((1, 0), (0, 1)):
         base = {"calls": 2, "F": 2, "flaky_first": ff, "fault_exc": fe}
         out += [dict(base, prefix=p) for p in enumerate_prefixes(body_E1, "X", {}, base, 2)]
-    for ff, fe in ((1, 0), (0, 0), (1, 1), (1, 2), (0, 3)):
-        base = {"calls": 1, "F": 3, "flaky_first": ff, "fault_exc": fe}
+    for ff, fe, ec in ((1, 0, 0), (0, 0, 1), (1, 1, 2), (1, 2, 1), (0, 3, 0), (1, 0, 2)):
+        base = {"calls": 1, "F": 3, "flaky_first": ff, "fault_exc": fe, "errcls": ec}
         out += [dict(base, prefix=p) for p in enumerate_prefixes(body_E1, "X", {}, base, 2)]
     return out
 
@@ -370,7 +384,7 @@ OBLIGATIONS = [
         E1,
         body_E1,
         "X",
-        desc="10 entry-point kinds x 12 hostile values x 2 extractor result shapes (plain / keys colliding with message fields) x fault masks over serializers/extractors/destination (faults raise IOError, an unhashable exception, an exception whose str() raises, or StopIteration): no logging call raises, application exceptions and return values pass through",
+        desc="10 entry-point kinds x 12 hostile values x 3 application exception classes (ordinary / __module__ None / empty __module__) x 2 extractor result shapes (plain / keys colliding with message fields) x fault masks over serializers/extractors/destination (faults raise IOError, an unhashable exception, an exception whose str() raises, or StopIteration): no logging call raises, application exceptions and return values pass through",
         functions=["Logger.write", "Destinations.send", "_safe_unicode_dictionary", "safeunicode", "saferepr", "ErrorExtraction.get_fields_for_exception", "write_traceback", "Action.finish", "Action.__exit__", "log_call", "MessageType.log", "ActionType.__call__", "Message.log", "Message.write", "FileDestination.__call__"],
         shards=_e1_shards,
         twin=[{"calls": 1, "F": 2, "flaky_first": 1, "twin_label": "two-faults"}],
